@@ -310,6 +310,16 @@ fn handle(req: &Value) -> Value {
             json!({"kind": "ok", "library": a.map(|v| from_var(&v)).map_err(|e| format!("{}", e)).unwrap_or_else(|e| json!({"$error": e})),
                    "serde_json": b.map(|v| value_tagged(&v)).unwrap_or_else(|e| json!({"$error": format!("{}", e)}))})
         }
+        "serde_repeat" => {
+            // the same conversion n times on one thread, then an unrelated flat value: outcomes must be what they were at the start
+            let dm = DM(req["value"].clone()); let n = req["n"].as_u64().unwrap();
+            let s = |r: Result<Rcvar, JmespathError>| match r { Ok(v) => format!("{:?}", v), Err(e) => format!("ERR {}", e) };
+            let first = s(Variable::from_serializable(&dm).map(Rcvar::new)); let p0 = s(Variable::from_serializable(&(7u8, "x")).map(Rcvar::new));
+            let mut last = first.clone();
+            for _ in 0..n { last = s(Variable::from_serializable(&dm).map(Rcvar::new)); }
+            let p1 = s(Variable::from_serializable(&(7u8, "x")).map(Rcvar::new));
+            json!({"kind": "ok", "stable": first == last && p0 == p1, "first": first, "last": last, "probe_before": p0, "probe_after": p1})
+        }
         "json_identity" => {
             // from_json -> search('@') -> to_string -> compare with serde_json's own reading of the input and of the output
             let text = req["text"].as_str().unwrap();
